@@ -194,6 +194,9 @@ OPS = {
     "normalise": (lambda s: s.normalise(), None, "rel"),
     "ow_abs": (lambda s: s.overwrite_absolute_messages([on(0, 50, 0, 64), off(12, 50, 0), cap(24)]),
                lambda ev, d: ([_E(0, "note_on", 0, 50, 64), _E(12, "note_off", 0, 50)], 24), "abs"),
+    "ow_abs_unsorted": (lambda s: s.overwrite_absolute_messages([on(0, 50, 0, 64), off(48, 50, 0), on(24, 52, 0, 60), off(72, 52, 0)]),
+                        lambda ev, d: ([_E(0, "note_on", 0, 50, 64), _E(48, "note_off", 0, 50), _E(24, "note_on", 0, 52, 60),
+                                        _E(72, "note_off", 0, 52)], 72), "abs"),
     "ow_rel": (lambda s: s.overwrite_relative_messages([on(None, 51, 0, 64), wait(12), off(None, 51, 0)]),
                lambda ev, d: ([_E(0, "note_on", 0, 51, 64), _E(12, "note_off", 0, 51)], 12), "rel"),
     "pad60": (lambda s: s.pad(60), lambda ev, d: (ev, max(d, 60)), "rel"),
